@@ -58,7 +58,7 @@ def spaces(tier, seed):
                                  descs=[(k, l) for k in '$><!' for l in ('', 'a', '1A')], dsyms=(None, '=', '#'),
                                  max_atoms=2 if q else 3, max_descs=2, max_depth=1, max_rings=0, max_lead=2, max_annot=0,
                                  max_bonds=1), 3))
-    sp.append(('rings', F.FBound(atoms=[A('C'), A('c')], bonds=(), descs=[('$', ''), ('<', 'b')], dsyms=(None, '='),
+    sp.append(('rings', F.FBound(atoms=[A('C'), A('c')], bonds=(), descs=[('$', ''), ('<', 'b')], dsyms=(None, '=', ':'),
                                  max_atoms=3, max_descs=2, max_depth=1, max_rings=1, ring_styles=('d', 'p', 'pp'),
                                  ring_syms=(None, '='), max_lead=1, max_annot=0), 4))
     sp.append(('rings2', F.FBound(atoms=[A('C')], bonds=(), descs=[('$', '')], dsyms=(None, '='), max_atoms=4,
